@@ -213,6 +213,92 @@ Inv_C17b(g) == g.b = {}
 Inv_C17c(g) == g.c = {}
 
 (***************************************************************************)
+(* Client side of the read exchange as the code performs it                 *)
+(* (lightning-storage-server lib/src/client/driver.rs, PrivClient):         *)
+(*   get : nonce := 32 fresh random bytes ; send (prefix, nonce) ; compare   *)
+(*         the reply's hmac with compute_shared_hmac(secret, nonce, kvs) ;   *)
+(*         check and strip the per-value tag of every returned record        *)
+(*   put : sort ; seal every value ; client tag ; the server stores a record *)
+(*         only with the NEXT version of its key (0 for a new key) ;         *)
+(*         compare the acknowledgement with the expected server tag          *)
+(* Session state c = [n, store, replies]: gets made so far, the server's     *)
+(* records, and the record list served for every get so far (what an         *)
+(* on-path party has recorded).  Requests:                                   *)
+(*   [op |-> "Put", recs]        write                                      *)
+(*   [op |-> "Get", p]           read of prefix p, answered honestly         *)
+(*   [op |-> "GetReplay", p, j]  read answered with the reply (records and   *)
+(*                               server tag) recorded for get number j       *)
+(* A replayed reply carries the tag made under the nonce of get j; the get   *)
+(* that receives it is number n+1 and checks under ITS nonce: this is the    *)
+(* CheckGet of Step with the context "nonce drawn n+1-j requests ago".       *)
+(***************************************************************************)
+InitC == [n |-> 0, store |-> <<>>, replies |-> <<>>]
+
+Ver8(v)      == <<0, 0, 0, 0, 0, 0, v \div 256, v % 256>>
+VerNum(v)    == v[Len(v)] + 256 * v[Len(v) - 1]
+HasPrefix(k, p) == Len(p) <= Len(k) /\ SubSeq(k, 1, Len(p)) = p
+Stored(st, k)   == {i \in 1..Len(st) : st[i].k = k}
+NextVer(st, k)  == IF Stored(st, k) = {} THEN 0 ELSE VerNum(st[CHOOSE i \in Stored(st, k) : TRUE].v) + 1
+Select(st, p)   == SelectSeq(st, LAMBDA r : HasPrefix(r.k, p))
+AsSet(L)        == {L[i] : i \in 1..Len(L)}
+
+CResp(ok, recs) == [ok |-> ok, recs |-> recs]
+
+CStep(c, r, K) ==
+  CASE r.op = "Put" ->
+         IF \A i \in 1..Len(r.recs) : VerNum(r.recs[i].v) = NextVer(c.store, r.recs[i].k)
+         THEN [resp |-> CResp(TRUE, <<>>),
+               c |-> [c EXCEPT !.store = SelectSeq(c.store, LAMBDA x : \A i \in 1..Len(r.recs) : r.recs[i].k # x.k)
+                                          \o r.recs]]
+         ELSE [resp |-> CResp(FALSE, <<>>), c |-> c]          \* version conflict: nothing stored
+    [] r.op = "Get" ->
+         LET L == Select(c.store, r.p) IN
+         [resp |-> CResp(TRUE, L), c |-> [c EXCEPT !.n = @ + 1, !.replies = Append(@, L)]]
+    [] r.op = "GetReplay" ->
+         LET L  == c.replies[r.j]
+             ok == Step([n |-> c.n + 1],
+                        [op |-> "CheckGet", mk |-> [impl |-> "lss", ctx |-> NonceCtx(c.n + 1 - r.j), l |-> L],
+                         ed |-> NoEdit, ck |-> "lss", l2 |-> L, how |-> "replay"], K).resp.ok
+         IN [resp |-> CResp(ok, IF ok THEN L ELSE <<>>), c |-> [c EXCEPT !.n = @ + 1, !.replies = Append(@, L)]]
+
+(***************************************************************************)
+(* Monitors of the client session, from observations only: the nonce seen   *)
+(* on the wire for every get ([len, id]: its length and its bytes) and       *)
+(* whether the client accepted.                                              *)
+(* C17d (freshness clause of C17): every get uses a nonce of full length     *)
+(*       that differs from the nonces of all earlier gets of the session.    *)
+(* C17b: a reply recorded for an earlier get is never accepted.              *)
+(***************************************************************************)
+NonceLen == 32
+InitCG == [nonces |-> {}, b |-> {}, d |-> {}]
+ModelNonce(i) == [len |-> NonceLen, id |-> NonceSym(i)]
+
+CKeys(g, r, ok, nonce) ==
+  IF r.op = "Put" THEN {}
+  ELSE (IF nonce.len # NonceLen THEN {<<"C17d", "lssclient", "nonce-length", "-">>} ELSE {})
+       \cup (IF nonce \in g.nonces THEN {<<"C17d", "lssclient", "nonce-reused", "-">>} ELSE {})
+       \cup (IF r.op = "GetReplay" /\ ok THEN {<<"C17b", "lssclient", "context", "replay">>} ELSE {})
+
+CGhost(g, r, ok, nonce) ==
+  LET ks == CKeys(g, r, ok, nonce) IN
+  [nonces |-> IF r.op = "Put" THEN g.nonces ELSE g.nonces \cup {nonce},
+   b |-> g.b \cup {k \in ks : k[1] = "C17b"},
+   d |-> g.d \cup {k \in ks : k[1] = "C17d"}]
+
+Inv_C17d(g) == g.d = {}
+
+\* requests of a session in state c (the specification is the single source of what is explored)
+PutReq(recs)     == [op |-> "Put", recs |-> recs, p |-> <<>>, j |-> 0]
+GetReq(p)        == [op |-> "Get", recs |-> <<>>, p |-> p, j |-> 0]
+ReplayReq(p, j)  == [op |-> "GetReplay", recs |-> <<>>, p |-> p, j |-> j]
+CReqs(c, keys, prefixes, maxver, maxgets) ==
+       {PutReq(<<[k |-> k, v |-> Ver8(NextVer(c.store, k)), x |-> <<100 + NextVer(c.store, k)>>]>>) :
+          k \in {kk \in keys : NextVer(c.store, kk) <= maxver}}
+  \cup (IF c.n < maxgets
+        THEN {GetReq(p) : p \in prefixes} \cup {ReplayReq(p, j) : p \in prefixes, j \in 1..c.n}
+        ELSE {})
+
+(***************************************************************************)
 (* Generators: the adversary's candidate modifications of a written list    *)
 (* (used by MC_Auth, AuthCases and SimAuth so that the specification is the *)
 (* single source of what is explored).                                      *)
